@@ -331,6 +331,11 @@ static const cprog_t progs[] = {
   { .name = "H4n", .nthreads = 2, .quiescence = 1,
     .setup = { { { C_MALLOC, 17 * MiB, 0 }, { C_MALLOC, S8, 1 } }, { { C_INIT } } },
     .run   = { { { C_COLLECT, 0 }, { C_MALLOC, 17 * MiB, 2 }, { C_COLLECT, 0 }, { C_MALLOC, 17 * MiB, 3 } }, { { C_FREE, 0 } } } },
+  /* H6: the only page of a small size class becomes empty through a cross-thread free (it is retired, not released), is then used
+     again through the fast path, and the owner force-collects and allocates again */
+  { .name = "H6", .nthreads = 2, .quiescence = 1,
+    .setup = { { { C_MALLOC, 64, 0 } }, { { C_INIT } } },
+    .run   = { { { C_WAIT_FREE_DONE, 0, 1 }, { C_GENERIC99 }, { C_MALLOC, S8, 1 }, { C_MALLOC, 64, 2 }, { C_COLLECT, 1 }, { C_MALLOC, 64, 3 }, { C_MALLOC, 64, 4 } }, { { C_FREE_WAIT, 0 } } } },
   /* H5: the last block of a full page is freed remotely while the owner frees another block of it locally and retires it */
   { .name = "H5", .nthreads = 2, .quiescence = 1,
     .setup = { { { C_FILL, S8, 0, 9 } }, { { C_INIT } } },
